@@ -232,6 +232,18 @@ func newFakeSrv() *fakeSrv {
 			}
 			st = 500
 		}
+		if st >= 1000 {
+			// the answer (status st-1000) arrives, but the connection breaks
+			// while its body is being sent
+			st -= 1000
+			if hj, ok := w.(http.Hijacker); ok {
+				c, buf, _ := hj.Hijack()
+				fmt.Fprintf(buf, "HTTP/1.1 %d %s\r\nContent-Type: text/plain\r\nContent-Length: 64\r\n\r\nabcde", st, http.StatusText(st))
+				buf.Flush()
+				c.Close()
+				return
+			}
+		}
 		w.WriteHeader(st)
 	}))
 	return s
